@@ -107,6 +107,32 @@ def run(ctx):
         if log != [("A", h), ("B", h), ("C", h)] or out is not obj:
             run.violation(f"PluginManager.{h} does not apply the plugins' {h} hooks in configuration order: {log}",
                           {"hook": h, "calls": log})
+    # ---------------------------------------------------------------- options the plugins read from the RAW configuration
+    # (the scenarios of c15.option_scenarios give each of them a non-default value; a new raw read must be covered)
+    import re as _re
+
+    raw_reads = {}
+    for modname, mod in (("shorter_results", shorter_results), ("extract_operations", extract_operations),
+                         ("client_forward_refs", client_forward_refs), ("no_reimports", no_reimports)):
+        src = inspect.getsource(mod)
+        keys = set()
+        for m in _re.finditer(r"(?:_?get_section\(\s*)?self\.config_dict\s*\)?((?:\s*\.get\(\s*\"[^\"]+\"[^)]*\))+)", src):
+            keys.update(_re.findall(r"\.get\(\s*\"([^\"]+)\"", m.group(1)))
+        uses_settings = "get_client_settings(" in src
+        raw_reads[modname] = {"keys": sorted(keys), "settings": uses_settings}
+    expected_reads = {"shorter_results": {"keys": ["ariadne-codegen", "fragments_module_name", "tool"], "settings": False},
+                      "extract_operations": {"keys": ["ariadne-codegen", "extract-operations", "operations_module_name", "tool"],
+                                             "settings": True},
+                      "client_forward_refs": {"keys": [], "settings": False},
+                      "no_reimports": {"keys": [], "settings": False}}
+    accepted_reads = dict(expected_reads, shorter_results={"keys": ["fragments_module_name"], "settings": False},
+                          extract_operations={"keys": ["extract-operations", "operations_module_name"], "settings": True})
+    run.extra["plugin_raw_config_reads"] = raw_reads
+    for k, v in raw_reads.items():
+        run.count()
+        if v != expected_reads[k] and v != accepted_reads[k]:   # accepted: after fixes/C15-plugins-read-legacy-section.diff
+            run.broken("K2 raw configuration reads", f"contrib/{k}.py now reads {v} from the configuration; the scenarios vary "
+                                                     f"{expected_reads[k]} — extend c15.option_scenarios")
     # ---------------------------------------------------------------- the configuration route: plugins/explorer.py
     # entries are class paths or module paths (a module stands for the plugin classes it exposes, in
     # inspect.getmembers order); the resolved list must keep the ORDER of the entries (Model: resolve_entries)
@@ -173,6 +199,11 @@ def run(ctx):
     # ---------------------------------------------------------------- const_name / unquote, model vs code
     names = ["".join(t) for n in range(1, 6) for t in itertools.product("aB0_", repeat=n)]
     names += ["GetMe", "getHTTPServer2", "list_X0", "Fetch_stuff2", "OnOnNamed1X1", "__a", "A__b", "HTTP", "x1Y2z3"]
+    # names built to collide if the suffix were not always appended
+    for base_name in ["item", "userDetails", "A", "x_1", "HTTPServer"]:
+        for suffix in ["", "Gql", "GQL", "_gql", "_GQL", "GqlGql", "Gql_GQL", "gql"]:
+            names.append(base_name + suffix)
+    names += ["Gql", "GQL", "gql", "_GQL", "GqlGql"]
     res = model.batch("C15", [[Sym("const_name"), n] for n in names])
     dummy = object.__new__(extract_operations.ExtractOperationsPlugin)
     bad = 0
